@@ -299,6 +299,8 @@ type Report struct {
 	Analysed  map[string]bool // functions analysed
 	Notes     []string
 	keys      map[string]int
+	parent    *Report // set for sub-reports (obligations shared with another property's rule)
+	subRule   string
 }
 
 func newReport(prop string, p *Prog) *Report {
@@ -306,6 +308,10 @@ func newReport(prop string, p *Prog) *Report {
 }
 
 func (r *Report) add(st Status, rule, key string, pos token.Pos, format string, a ...interface{}) {
+	if r.parent != nil {
+		r.parent.add(st, r.subRule+"."+rule, key, pos, format, a...)
+		return
+	}
 	full := r.Prop + "." + rule + "/" + key
 	// keep keys unique but stable: the n-th identical key in source order gets #n
 	r.keys[full]++
@@ -346,6 +352,10 @@ func (r *Report) Anchor(rule, what string, ok bool) bool {
 }
 
 func (r *Report) Sentinel(rule string, got, min int) {
+	if r.parent != nil {
+		r.parent.Sentinel(r.subRule+"."+rule, got, min)
+		return
+	}
 	r.Sentinels = append(r.Sentinels, Sentinel{Rule: r.Prop + "." + rule, Got: got, Min: min})
 	if got < min {
 		r.add(Undecided, rule, "sentinel", token.NoPos, "rule matched %d instances, fewer than the %d confirmed by hand: the rule no longer sees the code it was written for", got, min)
